@@ -232,7 +232,12 @@ func genC07Hist(tier string, rng *Rng) []Case {
 			b.Hdrs = h2
 		}
 		g.script(b)
-		g.req("GET", "/c/x")
+		if rng.Chance(25, 100) {
+			// the entry is filled by a ranged request; later plain hits must still replay the whole response
+			g.req("GET", "/c/x", KV{"Range", rng.Pick([]string{"bytes=2-5", "bytes=0-0", "bytes=-3", "bytes=1-"})})
+		} else {
+			g.req("GET", "/c/x")
+		}
 		g.adv(int64(1 + rng.Intn(50)))
 		g.req("GET", "/c/x")
 		if rng.Chance(40, 100) {
@@ -250,7 +255,30 @@ func genC07Hist(tier string, rng *Rng) []Case {
 			g.adv(5)
 			g.req("GET", "/c/x")
 		}
-		out = append(out, mkCacheCase([]Rule{rule}, g.ops, nil))
+		var suffix *string
+		if rng.Chance(25, 100) {
+			sf := rng.Pick([]string{"-001", "-sfx", "s"})
+			suffix = &sf
+			// give the stored response an ETag whose own tail shares bytes with the suffix
+			tricky := rng.Pick([]string{"\"rev-100\"", "W/\"v1.10\"", "build-2010", "\"boxes\"", "\"ffs\"", "\"a-001\"", "\"plain\""})
+			for oi := range g.ops {
+				if g.ops[oi].Kind == "script" {
+					for bi := range g.ops[oi].Script[0].Bs {
+						b := &g.ops[oi].Script[0].Bs[bi]
+						if b.Status != 304 {
+							var h2 []KV
+							for _, kv := range b.Hdrs {
+								if kv.K != "Etag" {
+									h2 = append(h2, kv)
+								}
+							}
+							b.Hdrs = append(h2, KV{"Etag", tricky})
+						}
+					}
+				}
+			}
+		}
+		out = append(out, mkCacheCase([]Rule{rule}, g.ops, suffix))
 	}
 	return out
 }
@@ -398,6 +426,17 @@ func genC10Hist(tier string, rng *Rng) []Case {
 			}
 			// a later plain request for the same resource
 			g.req("GET", "/c/x")
+			if prof == "fresh" && g.etag != "" && rng.Chance(50, 100) {
+				// the entry goes stale and the origin answers the revalidation with a 304 that must not be cached
+				g.adv(g.lastL + 1)
+				g.nonce++
+				g.script(Behaviour{Status: 304, Hdrs: []KV{{"Cache-Control", rng.Pick([]string{"no-store", "private", "max-age=0", "no-cache"})},
+					{"X-Session", fmt.Sprintf("session-%d", g.nonce)}, {"Etag", g.etag}}})
+				g.req("GET", "/c/x")
+				g.adv(int64(rng.Pick2([]int{1, 5, 100})))
+				g.req("GET", "/c/x")
+				g.req("GET", "/c/x")
+			}
 		}
 		out = append(out, mkCacheCase([]Rule{rule}, g.ops, nil))
 	}
@@ -553,6 +592,19 @@ func genC15Hist(tier string, rng *Rng) []Case {
 				}
 				g.req("GET", "/c/full") // no Range at all
 				g.req("GET", "/c/full", KV{"Range", mkRange()})
+				// the entry expires, the resource changes length (possibly chunked now), and the request that
+				// refreshes it carries a range
+				n2 := rng.Intn(maxN + 1)
+				h2 := []KV{{"Content-Type", "text/plain"}, {"Cache-Control", "max-age=600"}}
+				if rng.Bool() {
+					h2 = append(h2, KV{"Content-Length", fmt.Sprint(n2)})
+				}
+				g.script(Behaviour{Status: 200, Hdrs: h2, Body: "ZYXWVUTSRQPONMLKJIHGFEDCBA"[:n2]})
+				g.adv(601)
+				g.req("GET", "/c/p0", KV{"Range", mkRange()})
+				g.req("GET", "/c/p0", KV{"Range", mkRange()})
+				g.req("GET", "/c/p1")
+				g.req("GET", "/c/p1", KV{"Range", mkRange()})
 				out = append(out, mkCacheCase([]Rule{cacheRule()}, g.ops, nil))
 			}
 		}
@@ -636,6 +688,67 @@ func genC18(tier string, rng *Rng) []Case {
 				}
 				out = append(out, mkCacheCase(rules, g.ops, nil))
 			}
+		}
+	}
+	return out
+}
+
+
+// ---------- C11 (end to end): distinct destinations and redirect targets never share an entry ----------
+
+func genC11Hist(tier string, rng *Rng) []Case {
+	var out []Case
+	n := 60
+	if tier == "thorough" {
+		n = 1200
+	}
+	resp := func(tag string) []Behaviour {
+		body := "generated-for-" + tag
+		return []Behaviour{{Status: 200, Hdrs: []KV{{"Content-Type", "text/plain"}, {"Content-Length", fmt.Sprint(len(body))}, {"Cache-Control", "max-age=600"}}, Body: body}}
+	}
+	for i := 0; i < n; i++ {
+		g := &histGen{rng: rng}
+		switch rng.Intn(3) {
+		case 0: // two rules, different destination hosts, equal destination paths
+			rules := []Rule{
+				{Enabled: true, Path: "/c/*", Dest: "http://hosta.test/same/$1", Type: 1, Cache: "c1"},
+				{Enabled: true, Path: "/d/*", Dest: "http://hostb.test/same/$1", Type: 1, Cache: "c1"},
+			}
+			g.ops = append(g.ops, Op{Kind: "script", Script: []HostScript{{"hosta.test", resp("hosta")}, {"hostb.test", resp("hostb")}}})
+			g.req("GET", "/c/x")
+			g.req("GET", "/d/x")
+			g.req("GET", "/c/x")
+			out = append(out, mkCacheCase(rules, g.ops, nil))
+		case 1: // redirect targets differing only in the port
+			rules := []Rule{
+				{Enabled: true, Path: "/t/a", Dest: "http://front.test/a", Type: 1, Cache: "c1", Restart: true},
+				{Enabled: true, Path: "/t/b", Dest: "http://front2.test/b", Type: 1, Cache: "c1", Restart: true},
+			}
+			redir := func(to string) []Behaviour {
+				return []Behaviour{{Status: 302, Hdrs: []KV{{"Location", to}, {"Cache-Control", "max-age=600"}, {"Content-Length", "0"}}}}
+			}
+			g.ops = append(g.ops, Op{Kind: "script", Script: []HostScript{
+				{"front.test", redir("http://h.test:8001/data")}, {"front2.test", redir("http://h.test:8002/data")},
+				{"h.test:8001", resp("port-8001")}, {"h.test:8002", resp("port-8002")}}})
+			g.req("GET", "/t/a")
+			g.req("GET", "/t/b")
+			g.req("GET", "/t/a")
+			g.req("GET", "/t/b")
+			out = append(out, mkCacheCase(rules, g.ops, nil))
+		case 2: // one rule, requests differing in one key field; every answer must be for its own request
+			rules := []Rule{{Enabled: true, Path: "/c/*", Dest: "http://origin.test/o/$1", Type: 1, Cache: "c1"}}
+			g.ops = append(g.ops, Op{Kind: "script", Script: []HostScript{{"origin.test", resp("any")}}})
+			for k := 0; k < 4; k++ {
+				var hd []KV
+				if rng.Bool() {
+					hd = append(hd, KV{"Accept-Encoding", rng.Pick([]string{"gzip", "br"})})
+				}
+				if rng.Chance(30, 100) {
+					hd = append(hd, KV{"Origin", rng.Pick([]string{"https://a", "https://b"})})
+				}
+				g.req(rng.Pick([]string{"GET", "HEAD"}), rng.Pick([]string{"/c/x", "/c/x?y=1", "/c/x%2Fy", "/c/x/y"}), hd...)
+			}
+			out = append(out, mkCacheCase(rules, g.ops, nil))
 		}
 	}
 	return out
